@@ -120,10 +120,15 @@ def run(c):
     for nm, g in (("data", g_data), ("rms", g_rms), ("model", g_mod)):
         if np.any(g[bad] != 0) or not np.all(np.isfinite(g)):
             out["oracle"].append("d(log-density)/d(%s) is not identically zero on masked pixels (or not finite)" % nm)
-    if good.any() and np.any(g_data[good] == 0):
+    # (pixels whose residual is exactly zero are stationary points of every symmetric loss - the gradient legitimately
+    #  vanishes there although the pixel is used; with dyadic test data such coincidences do occur)
+    resid = good & (np.asarray(data, np.float64) != np.asarray(mod, np.float64))
+    if c["loss"] == "cash_loss":        # -(m - d ln m): d/d(data) = ln m, legitimately zero where the model is exactly 1
+        resid = good & (np.asarray(mod, np.float64) != 1.0)
+    if resid.any() and np.any(g_data[resid] == 0):
         out["oracle"].append("d(log-density)/d(data) vanishes on an unmasked pixel")
     uses_rms = c["loss"] != "cash_loss"
-    if uses_rms and good.any() and np.any(g_rms[good] == 0):
+    if uses_rms and resid.any() and np.any(g_rms[resid] == 0):
         out["oracle"].append("d(log-density)/d(rms) vanishes on an unmasked pixel")
     return out
 
